@@ -267,6 +267,19 @@ var c20Encode = probe.Define("C20", "encode-pure", func(t *rapid.T) c20EncIn {
 		}
 	}
 	y0 := append([]byte(nil), ys[0]...)
+	// a DIFFERENT message is encoded in between: what Encode returned earlier is the caller's and stays what it was
+	{
+		other := in.Msg
+		other.Header.MsgID ^= 0x5a5a
+		other.Payloads = append([]model.Payload{{Kind: model.KNonce, Data: model.Bytes{0xf0, 0x0d}}}, in.Msg.Payloads...)
+		if _, _, err := libEncode(other); err == nil {
+			for i := range ys {
+				if !bytes.Equal(ys[i], y0) {
+					return probe.Fail("the buffer Encode returned for one message changed when another message was encoded (encoding #%d)", i+1)
+				}
+			}
+		}
+	}
 	// the returned buffer must not be referenced by the message's payloads
 	if p := overlapsBuffer(lm.Payloads, ys[0]); p != "" {
 		return probe.Fail("payload field %s shares memory with the buffer returned by Encode", p)
